@@ -16,6 +16,7 @@ import (
 	"net/netip"
 	"os"
 	"path/filepath"
+	"strconv"
 	"strings"
 	"testing"
 	"time"
@@ -143,6 +144,7 @@ type stats struct {
 	WrapErr  int            `json:"wrap_read_errors"`
 	Changed  int            `json:"wrap_address_changed"`
 	ByKind   map[string]int `json:"wraps_by_kind"`
+	SeqWraps int            `json:"wraps_in_sequences"`
 	CfgLists int            `json:"configured_lists"`
 	CfgOK    int            `json:"configured_lists_accepted"`
 	Vectors  int            `json:"vectors"`
@@ -198,6 +200,11 @@ func (r *runner) wrap(nets []string, peer net.Addr, kind string) {
 
 // wrapCfg wraps a connection under cfg; nets is the trusted list that configuration stands for.
 func (r *runner) wrapCfg(cfg *config.Config, nets []string, peer net.Addr, kind string) {
+	r.wrapWith(func(c net.Conn, d time.Duration) (net.Conn, error) { return proxy.VerifWrapProxyProtocol(cfg, c, d) }, nets, peer, kind)
+}
+
+// wrapWith wraps one connection through w (a fresh or a long-lived wrapper instance).
+func (r *runner) wrapWith(w func(net.Conn, time.Duration) (net.Conn, error), nets []string, peer net.Addr, kind string) {
 	first := kind
 	payload := []byte{0x10, 0x00, 0xfd, 0x05, 0x09, 'l', 'o', 'c', 'a', 'l', 'h', 'o', 's', 't', 0x63, 0xdd, 0x02}
 	if kind == "noneP" { // starts like "PROXY" without being a header
@@ -211,7 +218,7 @@ func (r *runner) wrapCfg(cfg *config.Config, nets []string, peer net.Addr, kind 
 	go func() {
 		client.Write(append(append([]byte(nil), hdr...), payload...))
 	}()
-	c, err := proxy.VerifWrapProxyProtocol(cfg, &fakeConn{Conn: server, remote: peer}, 3*time.Second)
+	c, err := w(&fakeConn{Conn: server, remote: peer}, 3*time.Second)
 	if err != nil {
 		r.t.Fatalf("list %q rejected: %v", nets, err)
 	}
@@ -369,6 +376,55 @@ func TestTrace(t *testing.T) {
 		}
 		r.runCase(r.rng.Intn(1000), pb, plen, peerb, zone, []string{kinds[r.rng.Intn(len(kinds))], "v1tcp4", "none"})
 		st.Random++
+	}
+
+	// 3a. SEQUENCES of connections through one wrapper instance: a trusted upstream first, then
+	// peers whose textual address merely starts like it (192.0.2.1 -> 192.0.2.10, 192.0.2.100),
+	// the trusted one again, look-alikes again
+	type seqCase struct {
+		nets    []string
+		trusted string
+		alikes  []string
+	}
+	seqs := []seqCase{
+		{[]string{"192.0.2.1"}, "192.0.2.1", []string{"192.0.2.10", "192.0.2.100", "192.0.2.19", "192.0.2.2"}},
+		{[]string{"10.0.0.0/30", "2001:db8::/64"}, "10.0.0.2", []string{"10.0.0.20", "10.0.0.200", "10.0.0.25"}},
+		{[]string{"198.51.100.1/32", "fd00::1"}, "198.51.100.1", []string{"198.51.100.12", "198.51.100.100", "198.51.100.199"}},
+		{[]string{"2001:db8::1"}, "2001:db8::1", []string{"2001:db8::10", "2001:db8::1:1", "2001:db8::1f"}},
+		{[]string{"172.16.5.0/24"}, "172.16.5.2", []string{"172.16.52.1", "172.16.50.2", "172.16.5.20"}},
+	}
+	for si, sc := range seqs {
+		wf, err := proxy.VerifNewProxyProtocolWrapper(&config.Config{ProxyProtocolTrustedProxies: sc.nets})
+		if err != nil {
+			t.Fatalf("list %q rejected: %v", sc.nets, err)
+		}
+		w := func(c net.Conn, d time.Duration) (net.Conn, error) { return wf(c, d), nil }
+		tcp := func(host string, port int) net.Addr {
+			return &net.TCPAddr{IP: net.ParseIP(host), Port: port}
+		}
+		hk := []string{"v1tcp4", "v2tcp4", "v2tcp6", "v1tcp6"}
+		step := 0
+		do := func(host string, kind string) {
+			step++
+			var a net.Addr = tcp(host, 30000+step)
+			if step%3 == 0 {
+				a = netutil.NewAddr(net.JoinHostPort(host, strconv.Itoa(30000+step)), "tcp")
+			}
+			before := st.Wraps
+			r.wrapWith(w, sc.nets, a, kind)
+			st.SeqWraps += st.Wraps - before
+		}
+		for _, a := range sc.alikes { // cold instance: look-alikes first
+			do(a, hk[(si+step)%4])
+		}
+		for round := 0; round < 2; round++ {
+			do(sc.trusted, hk[(si+round)%4]) // the trusted upstream connects
+			do(sc.trusted, "none")
+			for _, a := range sc.alikes {
+				do(a, hk[(si+step)%4])
+				do(a, "none")
+			}
+		}
 	}
 
 	// 3b. whole configured lists (empty, blank and mixed entries included) through the
